@@ -152,9 +152,23 @@ func dynamicLeg(a cli.Args, repo string, t *transOut, rep *emit.Report, distinct
 		rep.Notes = append(rep.Notes, "dynamic driver did not build")
 		return
 	}
+	// the IR of a driven adapter: the entry point the translator reports under the same
+	// signature (helpers inlined, so extracting parts of the interceptor into functions does
+	// not move it); if the declaration moved to another file of the package, the unique entry
+	// point of that package with the same function name
 	irOf := map[string]*entryPoint{}
+	byFunc := map[string][]*entryPoint{}
 	for _, ep := range t.EntryPoints {
 		irOf[ep.File+":"+ep.Func] = ep
+		k := strings.SplitN(ep.File, "/", 2)[0] + ":" + ep.Func
+		byFunc[k] = append(byFunc[k], ep)
+	}
+	for _, ad := range dynAdapters {
+		if _, ok := irOf[ad.Sig]; !ok {
+			if l := byFunc[ad.Dir+":"+ad.Sig[strings.LastIndex(ad.Sig, ":")+1:]]; len(l) == 1 {
+				irOf[ad.Sig] = l[0]
+			}
+		}
 	}
 	var cases []dynCase
 	id := dynBase
